@@ -1414,6 +1414,83 @@ def with_roles(fn, roles):
     return dataclasses.replace(fn, node=node)
 
 
+def _fuse_tuple_buffers(node: ast.FunctionDef) -> bool:
+    """`B = []` … `B.append((x, y, z))` inside a loop … `T = [elt for a, b, c in B if cond]` after it (B used nowhere else): the
+    consumers are moved to the producer — `T = []` where B was created, `if cond[x,y,z]: T.append(elt[x,y,z])` where the tuple was
+    appended.  Same elements in the same order (elt / cond read only the tuple's components and names the function never binds), so
+    a row that is first parked in an intermediate list and split afterwards reads like a row that is appended directly."""
+    top = node.body
+    changed = False
+    assigned = {n.id for n in ast.walk(node) if isinstance(n, ast.Name) and isinstance(n.ctx, (ast.Store, ast.Del))} | \
+        {a.arg for a in ast.walk(node) if isinstance(a, ast.arg)}
+    for i, st in enumerate(list(top)):
+        if not (isinstance(st, ast.Assign) and len(st.targets) == 1 and isinstance(st.targets[0], ast.Name) and
+                isinstance(st.value, ast.List) and not st.value.elts):
+            continue
+        B = st.targets[0].id
+        uses = [n for n in ast.walk(node) if isinstance(n, ast.Name) and n.id == B and n is not st.targets[0]]
+        appends = [n for n in ast.walk(node) if isinstance(n, ast.Expr) and isinstance(n.value, ast.Call) and
+                   isinstance(n.value.func, ast.Attribute) and n.value.func.attr == "append" and isinstance(n.value.func.value, ast.Name) and
+                   n.value.func.value.id == B and len(n.value.args) == 1 and isinstance(n.value.args[0], ast.Tuple)]
+        consumers = [c for c in top[i + 1:] if isinstance(c, ast.Assign) and len(c.targets) == 1 and isinstance(c.targets[0], ast.Name) and
+                     isinstance(c.value, ast.ListComp) and len(c.value.generators) == 1 and
+                     isinstance(c.value.generators[0].iter, ast.Name) and c.value.generators[0].iter.id == B and
+                     isinstance(c.value.generators[0].target, ast.Tuple) and
+                     all(isinstance(e, ast.Name) for e in c.value.generators[0].target.elts)]
+        if len(appends) != 1 or not consumers or len(uses) != len(appends) + len(consumers):
+            continue
+        tup = appends[0].value.args[0]
+        if any(len(c.value.generators[0].target.elts) != len(tup.elts) for c in consumers) or \
+                not all(isinstance(e, (ast.Name, ast.Constant)) for e in tup.elts):
+            continue
+        # the producer is inside a loop that ends before the first consumer; consumers' targets are bound nowhere else
+        loop_ix = next((k for k, t_ in enumerate(top) if any(x is appends[0] for x in ast.walk(t_))), None)
+        first_c = min(top.index(c) for c in consumers)
+        if loop_ix is None or not (i < loop_ix < first_c) or not isinstance(top[loop_ix], (ast.For, ast.While)):
+            continue
+        ok = True
+        for c in consumers:
+            T = c.targets[0].id
+            if sum(1 for n in ast.walk(node) if isinstance(n, ast.Name) and n.id == T and isinstance(n.ctx, ast.Store)) != 1:
+                ok = False
+            if any(isinstance(n, ast.Name) and n.id == T for t_ in top[:top.index(c)] for n in ast.walk(t_)):
+                ok = False
+            tn = {e.id for e in c.value.generators[0].target.elts}
+            for part in [c.value.elt] + list(c.value.generators[0].ifs):
+                for n in ast.walk(part):
+                    if isinstance(n, ast.Name) and n.id not in tn and n.id in assigned:
+                        ok = False
+        if not ok:
+            continue
+        new_stmts: List[ast.stmt] = []
+        for c in consumers:
+            ren = {t.id: e for t, e in zip(c.value.generators[0].target.elts, tup.elts)}
+            elt = _Rename(ren).visit(copy.deepcopy(c.value.elt))
+            app = ast.Expr(value=ast.Call(func=ast.Attribute(value=ast.Name(id=c.targets[0].id, ctx=ast.Load()), attr="append", ctx=ast.Load()),
+                                          args=[elt], keywords=[]))
+            conds = [_Rename(ren).visit(copy.deepcopy(t)) for t in c.value.generators[0].ifs]
+            if conds:
+                test = conds[0] if len(conds) == 1 else ast.BoolOp(op=ast.And(), values=conds)
+                app = ast.If(test=test, body=[app], orelse=[])
+            new_stmts.append(ast.copy_location(app, appends[0]))
+
+        class Rep(ast.NodeTransformer):
+            def visit_Expr(self, n):
+                if n is appends[0]:
+                    return new_stmts
+                return n
+        top[loop_ix] = Rep().visit(top[loop_ix])
+        inits = [ast.copy_location(ast.Assign(targets=[ast.Name(id=c.targets[0].id, ctx=ast.Store())], value=ast.List(elts=[], ctx=ast.Load())), st)
+                 for c in consumers]
+        for c in consumers:
+            top.remove(c)
+        top[i:i + 1] = inits
+        ast.fix_missing_locations(node)
+        changed = True
+        break
+    return changed
+
+
 def normalise(M, fn, subst: bool = False, guards: bool = False, keep=(), comps: bool = False, ifexp: bool = False, closures: bool = False, ssa: bool = False) -> ast.FunctionDef:
     """a normalised deep copy of fn.node (see module docstring)"""
     node = copy.deepcopy(fn.node)
@@ -1428,6 +1505,9 @@ def normalise(M, fn, subst: bool = False, guards: bool = False, keep=(), comps: 
         node.body = _fold_const_ifs(node.body)
         node = _AttrCalls().generic_visit(node) if True else node
         if not changed:
+            break
+    for _ in range(3):
+        if not _fuse_tuple_buffers(node):
             break
     if guards:
         node.body = _guards_to_else(node.body)
